@@ -384,6 +384,9 @@ def next_job_batch():
                         available.remove(target)
                     pass
                 pass
+            # a target still executing for this very job has to finish first
+            for target in job.get('doing'):
+                available.discard(target)
             for a in available:
                 job.get('todo').remove(a)
             job.get('do').update(available)
